@@ -243,9 +243,14 @@ def parallel_map(fn, items, procs=None):
 def load_findings():
     p = os.path.join(ROOT, 'known_findings.json')
     if not os.path.exists(p):
-        return []
+        open(p, 'w').write('{"findings": []}')
     with open(p) as f:
-        return json.load(f).get('findings', [])
+        res = json.load(f).get('findings', [])
+    extra = os.environ.get('VERIF_EXTRA_FINDINGS')
+    if extra and os.path.exists(extra):
+        with open(extra) as f:
+            res += json.load(f).get('findings', [])
+    return res
 
 
 class Check(object):
